@@ -96,9 +96,13 @@ CLAIMED = {
     "C10": ("Lean 4 theorems: the evaluator model consults its function table only by name, so execute is invariant under every "
             "permutation of the top-level functions (distinct names); class layout resolved by name is base-first under every permutation "
             "of the class declarations + differential runs of the real pipeline on seeded programs and their permutations (reverse, "
-            "rotations, shuffles; class-free and class programs) with the Lean evaluator as reference on the class-free ones",
-            "Proof on the model for every program/permutation; PARTIAL: acceptance by the analyser and the class runtime are tied by "
-            "comparing the real pipeline across permutations (bounded), not by a theorem about a model of the analyser.",
+            "rotations, shuffles; class-free and class programs) with the Lean evaluator as reference on the class-free ones; acceptance: "
+            "a model of the analyser's declaration pass (Sem/Decls.lean: duplicate names, bases by name, inheritance cycles, calls by "
+            "name and arity, new by class name) proved invariant under every permutation (acceptance_order_independent) and compared with "
+            "the real analyser on declaration graphs with seeded declaration errors in several orders",
+            "Proof on the model for every program/permutation; acceptance proved on the declaration-pass model and tied by verdict "
+            "equality on generated declaration graphs. PARTIAL: the analyser's body rules beyond calls/new and the class runtime are tied "
+            "by comparing the real pipeline across permutations (bounded).",
             "Trusted: Lean kernel (core-only), generators, harness+orchestrator. Defects found and repaired: forward-call signature, "
             "class layout by declaration order, vtable pointers.", "DESIGN.md §4 C10"),
     "C11": ("Lean 4 theorems about a model of the evaluator's mark-sweep cycle collector and a register machine interruptible by a collection "
@@ -108,8 +112,9 @@ CLAIMED = {
             "dense subsets) must print the model's trace; class and destructor programs must print the same under every schedule; the real "
             "timer thread runs under ThreadSanitizer",
             "Proof on the model for every operation list and every schedule (unbounded heap, arbitrary sharing and cycles); tied to "
-            "runtime_evaluator.cpp by differential runs through the BLOCH_VERIF schedule hook. PARTIAL: destructor timing under reference "
-            "counting and tracked-qubit objects are compared implementation-vs-implementation across schedules, not modelled; race freedom "
+            "runtime_evaluator.cpp by differential runs through the BLOCH_VERIF schedule hook. Destructor timing under reference counting is "
+            "modelled separately (Life.Model, counts proved exact, see C08). PARTIAL: the interplay of reference counting with the cycle "
+            "collector and tracked-qubit objects are compared implementation-vs-implementation across schedules, not modelled; race freedom "
             "and thread shutdown are observed with ThreadSanitizer (bounded), not proved.",
             "Trusted: Lean kernel (core-only), heap program renderer, harness hook (collect at statement boundary k iff schedule(k)), "
             "ThreadSanitizer. Defects found and repaired: temporaries not treated as roots, destructor runs depending on the schedule.",
